@@ -96,8 +96,8 @@ def valid_vector(S, n_ids):
     return bottom + top
 
 
-def observe(subs, n_ids, posterior):
-    h, pop, S = build_hll(subs, n_ids, posterior)
+def observe(subs, n_ids, posterior, bare=False):
+    h, pop, S = build_hll(subs, n_ids, posterior, bare=bare)
     if h is None:
         return None
     ids = h.get_id()
@@ -261,7 +261,7 @@ def oracle(case):
     if case.get('type') == 'reconf_mech':
         return reconfigure_mech(random.Random(case['seed']))[1]
     try:
-        obs = observe(case['subs'], case['n_ids'], case.get('posterior', False))
+        obs = observe(case['subs'], case['n_ids'], case.get('posterior', False), case.get('bare', False))
     except Exception as e:
         return 'chi raised %s: %s' % (type(e).__name__, e)
     return None if obs is None else direct(case['subs'], case['n_ids'], obs)
@@ -287,10 +287,11 @@ def run(ck):
         comps.append((gen_comp(ck.rng, n_ids), n_ids))
     exprs, payload = [], {}
     for i, (subs, n_ids) in enumerate(comps):
-        case = {'subs': subs, 'n_ids': n_ids, 'posterior': i % 3 == 0}
+        # a single model is also used on its own, not wrapped in a ComposedPopulationModel
+        case = {'subs': subs, 'n_ids': n_ids, 'posterior': i % 3 == 0, 'bare': len(subs) == 1 and i % 2 == 0}
         S = [Sub(**d) for d in subs]
         try:
-            obs = observe(subs, n_ids, case['posterior'])
+            obs = observe(subs, n_ids, case['posterior'], case['bare'])
         except Exception as e:
             ck.violation(key_of(case, ''), 'chi raised %s: %s' % (type(e).__name__, e), case)
             continue
